@@ -321,6 +321,13 @@ func vRunC15(c *vCase) {
 		if p == nil {
 			continue
 		}
+		if vChance(r, 0.25) {
+			// the same Packet object gets a second payload (other type, other number of dimensions) before it is encoded
+			if !vRebuildPacket(r, p) {
+				continue
+			}
+			c.Cov("roundtrips_of_reused_packet_objects", 1)
+		}
 		b := p.Bytes()
 		save(b)
 		cr := &vCountingReader{r: bytes.NewReader(b)}
@@ -445,6 +452,30 @@ func vBuildPacket(r *rand.Rand) (p *Packet) {
 		return nil
 	}
 	return p
+}
+
+// vRebuildPacket gives the packet a new payload of another shape, as a sender does that re-uses one Packet object.
+func vRebuildPacket(r *rand.Rand, p *Packet) bool {
+	ndim := vPick(r, 1, 1, 2, 3)
+	dims := make([]int16, ndim)
+	nchan := 1
+	for i := range dims {
+		dims[i] = int16(vPick(r, 1, 2, 3, 8))
+		nchan *= int(dims[i])
+	}
+	n := nchan * vPick(r, 1, 3, 10)
+	if vChance(r, 0.5) {
+		d := make([]int16, n)
+		for i := range d {
+			d[i] = int16(r.Intn(65536))
+		}
+		return p.NewData(d, dims) == nil
+	}
+	d := make([]int32, n)
+	for i := range d {
+		d[i] = int32(r.Uint32())
+	}
+	return p.NewData(d, dims) == nil
 }
 
 func init() {
